@@ -681,6 +681,9 @@ def _run_smoother(kernel, y, nodata, lam=None, p=None, llas=None, robust=False, 
 
 def c02_placeholder(kernel, data, nd1, nd2, special=None, robust=False, lc=0.7, grid=3, lam=1.0, p=0.5, l0=0.0, lstep=1.0):
     rng = np.random.default_rng(3)
+    mix = None
+    if special and special.startswith("mix"):
+        mix, special = (1 if special.startswith("mix-") else 0), special.split("-", 1)[1]
     sp = {None: None, "nan": np.nan, "inf": np.inf, "-inf": -np.inf}[special]
     valid = [v is not None for v in data]
     nmin = 5 if kernel in ("ws2dwcv", "ws2dwcvp") else 2
@@ -709,6 +712,12 @@ def c02_placeholder(kernel, data, nd1, nd2, special=None, robust=False, lc=0.7, 
             continue
         y1 = np.where(vmask, vals, a).astype("float64")
         y2 = np.where(vmask, vals, b if sp is None else sp).astype("float64")
+        if mix is not None:
+            k = 0
+            for i in range(len(y2)):
+                if not vmask[i]:
+                    y2[i] = sp if k % 2 == mix else b
+                    k += 1
         kw = dict(lam=lam, p=p, llas=g.astype("float64"), robust=bool(robust), lc=float(lc))
         try:
             o1, l1 = _run_smoother(kernel, y1, a, **kw)
@@ -719,6 +728,11 @@ def c02_placeholder(kernel, data, nd1, nd2, special=None, robust=False, lc=0.7, 
             ok = np.array_equal(o1, y1.astype("int16").astype("float64")) and (l1 is None or l1 == 0)
             if not ok:
                 return {"violates": True, "why": "too few valid cells must be returned unchanged with lambda 0", "y": y1, "out": o1, "lopt": l1}
+            fin = np.isfinite(y2)
+            ok2 = np.array_equal(np.asarray(o2)[fin], y2[fin].astype("int16").astype("float64")) and (l2 is None or l2 == 0)
+            if not ok2:
+                return {"violates": True, "why": "too few valid cells (missing cells NaN / inf): finite cells must be returned unchanged, lambda 0",
+                        "y": y2, "out": o2, "lopt": l2}
             continue
         if np.max(np.abs(o1)) > 32000:
             continue
@@ -1337,6 +1351,30 @@ def c07_spi(entry, pixels, nodata, window=None, groups=None, cal=None):
                         return {"violates": True, "pixel": p, "group": grp, "bad": bad[:4], "got": res}
         except Exception as e:  # noqa
             return {"violates": True, "why": f"raised {type(e).__name__}: {e}"[:200], "pixels": pix}
+    if entry != "yxt":
+        # long grouped records shaped after the candidate (same group pattern repeated, proper sub-windows per group): behaviour
+        # that only shows beyond a size threshold of a library routine (e.g. an unstable sort switching algorithm at 16 elements)
+        g0 = list(groups)
+        ng = int(max(g0)) + 1
+        for reps in (6, 12, 25):
+            g = np.array(g0 * reps, dtype="int16")
+            T = len(g)
+            p = np.round(rng.gamma(2.0, 60.0, T)).astype("int64") + 1
+            p[rng.integers(0, T, size=max(1, T // 15))] = 0
+            p[rng.integers(0, T, size=max(1, T // 20))] = nodata
+            calL = []
+            for grp in range(ng):
+                ngp = int((g == grp).sum())
+                calL.append([ngp // 4, ngp // 4 + max(3, ngp // 2)])
+            try:
+                res = stats.gammastd_grp(p.astype("int16"), g, ng, nodata, np.array(calL, dtype="int16"))
+            except Exception as e:  # noqa
+                return {"violates": True, "why": f"long grouped record raised {type(e).__name__}: {e}"[:200]}
+            for grp in range(ng):
+                idx = np.where(g == grp)[0]
+                bad = _spi_compare(res[idx], _spi_reference(p[idx], nodata, calL[grp][0], calL[grp][1]), nodata)
+                if bad:
+                    return {"violates": True, "long_grouped_record": {"steps": T, "group": grp, "cal": calL[grp]}, "bad": bad[:4]}
     return {"violates": False}
 
 
